@@ -76,6 +76,17 @@ func execMore(args []string) string {
 			sp.MoveTime = ms
 		case "clock":
 			sp.WTime, sp.BTime = ms, ms
+		case "line":
+			// the limits as the go-line parser delivers them (depth and time limits combined, in either order)
+			if len(args) < 5 {
+				return "bad-op"
+			}
+			b, _ := hexDecode(args[4])
+			var pn bool
+			pn = guard(func() { captureStdout(func() { sp = game.VerifParseGo(strings.Fields(string(b))) }) })
+			if pn {
+				return "p.intime=0"
+			}
 		}
 		// a genuine overrun repeats; a scheduling hiccup of a loaded machine does not: up to three attempts
 		ok2 := false
@@ -87,7 +98,18 @@ func execMore(args []string) string {
 			ref := time.Since(t0)
 			s := search.NewSearch(*p)
 			t1 := time.Now()
-			captureStdout(func() { s.Search(context.Background(), sp) })
+			// watchdog: a search that ignores its limit is cancelled (well after the limit) and, should it ignore even that, abandoned
+			wctx, wcancel := context.WithTimeout(context.Background(), time.Duration(ms)*time.Millisecond+3*time.Second)
+			fin := make(chan struct{})
+			go func() {
+				captureStdout(func() { s.Search(wctx, sp) })
+				close(fin)
+			}()
+			select {
+			case <-fin:
+			case <-time.After(time.Duration(ms)*time.Millisecond + 8*time.Second):
+			}
+			wcancel()
 			el := time.Since(t1)
 			slack := 60*time.Millisecond + 3*ref
 			ok2 = el <= time.Duration(ms)*time.Millisecond+slack
@@ -98,12 +120,13 @@ func execMore(args []string) string {
 }
 
 // legalUciSet: the legal moves of the position a `position …` line sets up (by the engine's own generator), nil if it sets none
-func legalUciSet(line string) map[string]bool {
+// posFromCommand replays a `position` command with the library functions on a fresh position; complete=false when a move of
+// the list was rejected (the engine then keeps the moves made so far)
+func posFromCommand(line string) (p *position.Position, complete bool) {
 	toks := uci.VerifPrepareInput(line)
 	if len(toks) < 2 || toks[0] != "position" {
-		return nil
+		return nil, false
 	}
-	var p *position.Position
 	rest := toks[1:]
 	switch rest[0] {
 	case "startpos":
@@ -111,24 +134,34 @@ func legalUciSet(line string) map[string]bool {
 		rest = rest[1:]
 	case "fen":
 		if len(rest) < 7 {
-			return nil
+			return nil, false
 		}
 		q, err := position.NewFromFen(strings.Join(rest[1:7], " "))
 		if err != nil {
-			return nil
+			return nil, false
 		}
 		p = q
 		rest = rest[7:]
 	default:
-		return nil
+		return nil, false
 	}
+	complete = true
 	if len(rest) > 1 && rest[0] == "moves" {
 		for _, mv := range rest[1:] {
 			var err error
 			if guard(func() { err = p.MakeMoveFromString(mv) }) || err != nil {
+				complete = false
 				break
 			}
 		}
+	}
+	return p, complete
+}
+
+func legalUciSet(line string) map[string]bool {
+	p, _ := posFromCommand(line)
+	if p == nil {
+		return nil
 	}
 	set := map[string]bool{}
 	lms := legalMoves(p)
@@ -206,10 +239,17 @@ func execDialog(lines []string) string {
 	// which answers are legal for the k-th accepted go (by the position set before it)
 	var curLegal map[string]bool
 	var expectLegal []map[string]bool
+	posExact := true
 	for _, lh := range lines {
 		b, _ := hexDecode(lh)
 		line := string(b)
+		var wantPos *position.Position
 		if t := uci.VerifPrepareInput(line); len(t) > 0 {
+			if t[0] == "position" && game.VerifState(uci.VerifGame()) != 2 {
+				if q, complete := posFromCommand(line); q != nil && complete {
+					wantPos = q
+				}
+			}
 			if t[0] == "position" && game.VerifState(uci.VerifGame()) != 2 {
 				if set := legalUciSet(line); set != nil {
 					curLegal = set
@@ -234,6 +274,12 @@ func execDialog(lines []string) string {
 		}
 		if panicked || hung {
 			break
+		}
+		if wantPos != nil {
+			// C03: the position the engine will search is exactly the one the command describes
+			if sr := game.VerifSearch(uci.VerifGame()); sr == nil || sr.Pos.ToFen() != wantPos.ToFen() || sr.Pos.ZobristHash != wantPos.ZobristHash {
+				posExact = false
+			}
 		}
 		// let a started search finish (sequential mode)
 		deadline := time.Now().Add(8 * time.Second)
@@ -277,7 +323,7 @@ func execDialog(lines []string) string {
 		}
 	}
 	// every accepted go is answered by exactly one bestmove
-	return "out=" + classifyOut(out) + " p.nopanic=1 p.answered=1 p.bestlegal=" + b2s(bestLegal) + " p.onebest=" + b2s(k == len(expectLegal))
+	return "out=" + classifyOut(out) + " p.nopanic=1 p.answered=1 p.bestlegal=" + b2s(bestLegal) + " p.onebest=" + b2s(k == len(expectLegal)) + " p.posexact=" + b2s(posExact)
 }
 
 // ---------- generators ----------
@@ -443,6 +489,85 @@ func dialogOps(o *Out, seed uint64, n int, corpus string) {
 		a, b := fens[rng.Intn(len(fens))], fens[rng.Intn(len(fens))]
 		o.Run("dialog " + hexOf("position fen "+a) + " " + hexOf("go depth 3") + " " + hexOf("position fen "+b) + " " + hexOf([]string{"go movetime 1", "go wtime 1 btime 1", "go wtime 30 btime 30"}[rng.Intn(3)]))
 	}
+	// game dialogues: successive `position` commands on one game object describing prefixes of one legal game — growing,
+	// shrinking (take back), repeated, without the move list — with searches in between; and games whose current position
+	// occurred before (the root is a repetition)
+	ps := &posSource{rng: rng, corpus: fens}
+	for i := 0; i < n/2; i++ {
+		start := "startpos"
+		p := *position.New()
+		if rng.Intn(3) == 0 {
+			fen := fens[rng.Intn(len(fens))]
+			q, err := position.NewFromFen(fen)
+			if err != nil || inCheckSafe(q, types.SwitchColor(q.SideToMove)) {
+				continue
+			}
+			start, p = "fen "+fen, *q
+		}
+		var game []string
+		if rng.Intn(4) == 0 {
+			// shuffle pieces out and back so that positions repeat
+			for _, cyc := range [][]string{{"g1f3", "g8f6", "f3g1", "f6g8"}, {"b1c3", "b8c6", "c3b1", "c6b8"}} {
+				q := p
+				ok := true
+				for _, mv := range cyc {
+					found := false
+					for _, lm := range legalMoves(&q) {
+						if lm.m.String() == mv {
+							q, found = lm.pos, true
+							break
+						}
+					}
+					if !found {
+						ok = false
+						break
+					}
+				}
+				if ok {
+					game = append(game, cyc...)
+					game = append(game, cyc[:rng.Intn(3)*2]...)
+					break
+				}
+			}
+		}
+		if len(game) == 0 {
+			ps.playout("", p, 2+rng.Intn(10), func(_ *position.Position, _ string, moves []string) bool {
+				game = append([]string{}, moves...)
+				return true
+			})
+		}
+		if len(game) == 0 {
+			continue
+		}
+		cmd := func(k int) string {
+			if k <= 0 {
+				return "position " + start
+			}
+			return "position " + start + " moves " + strings.Join(game[:k], " ")
+		}
+		var lines []string
+		k := 1 + rng.Intn(len(game))
+		for j := 2 + rng.Intn(5); j > 0; j-- {
+			lines = append(lines, hexOf(cmd(k)))
+			switch rng.Intn(5) {
+			case 0:
+				lines = append(lines, hexOf([]string{"go depth 1", "go depth 2", "go depth 3", "go movetime 1"}[rng.Intn(4)]))
+			case 1:
+				lines = append(lines, hexOf("isready"))
+			}
+			switch rng.Intn(4) {
+			case 0:
+				k = 0
+			case 1:
+				k = rng.Intn(len(game) + 1)
+			default:
+				k = min(len(game), k+1+rng.Intn(2))
+			}
+		}
+		lines = append(lines, hexOf(cmd(len(game))), hexOf([]string{"go depth 2", "go depth 3"}[rng.Intn(2)]))
+		o.Run("dialog " + strings.Join(lines, " "))
+		o.Stat("game_dialogues")
+	}
 	garbage := []string{"xyzzy", "joho", "1234", "Go", "POSITION"}
 	for i := 0; i < n; i++ {
 		var lines []string
@@ -464,7 +589,8 @@ func dialogOps(o *Out, seed uint64, n int, corpus string) {
 			case 5:
 				l = "position fen " + fens[rng.Intn(len(fens))]
 			case 6:
-				l = []string{"position", "position fen 8/8/8 w", "position fen x/8/8/8/8/8/8/8 w - - 0 1", "position startpos moves", "position startpos moves e2e5x"}[rng.Intn(5)]
+				l = []string{"position", "position fen 8/8/8 w", "position fen x/8/8/8/8/8/8/8 w - - 0 1", "position startpos moves", "position startpos moves e2e5x",
+					"position startpos moves e2", "position startpos moves z9z9 e2e4", "position startpos moves e2e4 i1i2", "position startpos moves e2e4 e7", "position startpos moves e2e"}[rng.Intn(10)]
 			case 7, 8:
 				l = []string{"go depth 1", "go depth 2", "go movetime 1", "go wtime 1 btime 1", "go depth 1 nodes 5", "go depth 1 mate 2 wtime abc", "go depth"}[rng.Intn(7)]
 			case 9:
@@ -486,8 +612,15 @@ func timedOps(o *Out, seed uint64, n int, corpus string) {
 	fens := readLines(corpus)
 	for i := 0; i < n; i++ {
 		fen := fens[rng.Intn(len(fens))]
-		kind := []string{"movetime", "clock"}[rng.Intn(2)]
+		kind := []string{"movetime", "clock", "line"}[rng.Intn(3)]
 		ms := []int{1, 3, 5, 8, 12, 20, 30, 45, 60, 90, 150}[rng.Intn(11)]
+		if kind == "line" {
+			l := []string{"depth 40 movetime %d", "movetime %d depth 40", "depth 40 wtime %d btime %d", "wtime %d btime %d depth 40",
+				"winc 0 movetime %d", "wtime %d btime %d movestogo 3", "depth 200 winc 1 binc 1 wtime %d btime %d", "nodes 5 movetime %d", "mate 3 depth 50 movetime %d"}[rng.Intn(9)]
+			l = strings.ReplaceAll(l, "%d", strconv.Itoa(ms))
+			o.Run(fmt.Sprintf("timed %s line %d %s", hexOf(fen), ms, hexOf(l)))
+			continue
+		}
 		o.Run(fmt.Sprintf("timed %s %s %d", hexOf(fen), kind, ms))
 	}
 }
